@@ -747,6 +747,10 @@ func main() {
 		raceMain(o)
 	case o.Extra == "hunt":
 		huntMain(o)
+	case o.Extra == "errrate":
+		errRateMain(o)
+	case o.Extra == "tpprobe":
+		tpProbeMain(o)
 	case o.Replay != "":
 		replayMain(o)
 	default:
